@@ -35,6 +35,7 @@ type iEntry struct { // crypto map entry
 
 type iIntf struct {
 	name    string
+	vrf     string
 	address string
 	in, out string
 	crypto  string
@@ -46,6 +47,8 @@ type iModel struct {
 	intfs   []*iIntf
 	// an 'exit' at configuration level has left configuration mode
 	leftConfig bool
+	// ACLs and crypto maps of interfaces unknown to Netspoc (C07)
+	outsideACL, outsideMap map[string]bool
 	// mode
 	mAcl   *iACL
 	mEntry *iEntry
@@ -156,6 +159,9 @@ func (m *iModel) exec(c string) {
 		m.leave()
 		a := m.acl(bw[3])
 		if neg {
+			if m.outsideACL[bw[3]] {
+				vf.Assert(false, "C07: IOS: command deletes an ACL of an interface unknown to Netspoc")
+			}
 			if a == nil {
 				m.reject("access-list to be deleted does not exist", c)
 				return
@@ -185,6 +191,9 @@ func (m *iModel) exec(c string) {
 		seq, _ := iAtoi(bw[3])
 		e := m.entry(bw[2], seq)
 		if neg {
+			if m.outsideMap[bw[2]] {
+				vf.Assert(false, "C07: IOS: command deletes a crypto map entry of an interface unknown to Netspoc")
+			}
 			if e == nil {
 				m.reject("crypto map entry to be deleted does not exist", c)
 				return
@@ -388,7 +397,11 @@ func (m *iModel) text() string {
 		}
 	}
 	for _, i := range m.intfs {
-		b.WriteString("interface " + i.name + "\n ip address " + i.address + "\n")
+		b.WriteString("interface " + i.name + "\n")
+		if i.vrf != "" {
+			b.WriteString(" ip vrf forwarding " + i.vrf + "\n")
+		}
+		b.WriteString(" ip address " + i.address + "\n")
 		if i.in != "" {
 			b.WriteString(" ip access-group " + i.in + " in\n")
 		}
@@ -442,6 +455,8 @@ func iParse(text string) *iModel {
 			}
 		case m.mIntf != nil:
 			switch {
+			case w[0] == "ip" && w[1] == "vrf":
+				m.mIntf.vrf = w[3]
 			case w[0] == "ip" && w[1] == "address":
 				m.mIntf.address = strings.Join(w[2:], " ")
 			case w[0] == "ip" && w[1] == "access-group" && w[3] == "in":
@@ -543,7 +558,7 @@ func iCryptoSide(b *strings.Builder, t, mapName, sfx string, seqChoices [][]stri
 }
 
 func VerifIOSGraph() {
-	vf.Assumption("IOS object graph: interface Ethernet0 with inbound ACL, interface Ethernet1 with a crypto map of 0..2 entries per side (3 peers, optional inbound filter ACL in 2 variants, device sequence numbers 1,2 or 2,3), optional interface Ethernet2 unknown to Netspoc with its own ACL (name with or without -DRC-) or crypto map; each path is one concrete pair chosen by the solver")
+	vf.Assumption("IOS object graph: interface Ethernet0 with inbound ACL (optionally bound at Ethernet1 too, while the target gives Ethernet1 its own ACL with the old or another content), 0..2 interfaces of a VRF the target does not use beside a managed VRF, interface Ethernet1 with a crypto map of 0..2 entries per side (3 peers, optional inbound filter ACL in 2 variants, device sequence numbers 1,2 or 2,3), optional interface Ethernet2 unknown to Netspoc with its own ACL (name with or without -DRC-) or crypto map; each path is one concrete pair chosen by the solver")
 	vf.Assumption("IOS model (text level): sub-commands need their mode, numbered ACL inserts need a free sequence number and a new entry, 'no' forms need what they remove, bindings and filters may only name existing ACLs / crypto maps, an ACL that is still referenced cannot be deleted")
 	var a, b strings.Builder
 	// managed interface with ACL
@@ -554,13 +569,39 @@ func VerifIOSGraph() {
 	} else {
 		b.WriteString("ip access-list extended e0_in\n" + e0)
 	}
+	part := vf.Param("part", "crypto")
+	// the ACL of Ethernet0 may be bound at Ethernet1 as well; the target
+	// gives Ethernet1 an ACL of its own (old content or another one)
+	e1Shares, e1Has := false, false
+	if part == "shared" {
+		vf.Assumption("part shared: the device ACL of Ethernet0 may be bound at Ethernet1 too; the target gives Ethernet1 no ACL, an ACL with the old content or with another content")
+		e1Shares = vf.Bool("a.e1.sharesACL")
+		e1Has = vf.Bool("b.e1.hasACL")
+		if e1Has {
+			if vf.Bool("b.e1.aclDiffers") {
+				b.WriteString("ip access-list extended e1_in\n permit tcp any host 10.1.2.20 eq 25\n deny ip any any\n")
+			} else {
+				b.WriteString("ip access-list extended e1_in\n" + e0)
+			}
+		}
+	}
 	// crypto maps
-	aHas := iCryptoSide(&a, "a", "VPN", "-DRC-0", [][]string{{"1", "2"}, {"2", "3"}}, 1)
-	bHas := iCryptoSide(&b, "b", "crypto-Ethernet1", "", [][]string{{"1", "2"}}, 2)
+	aHas, bHas := false, false
+	if part == "crypto" {
+		aHas = iCryptoSide(&a, "a", "VPN", "-DRC-0", [][]string{{"1", "2"}, {"2", "3"}}, 1)
+		bHas = iCryptoSide(&b, "b", "crypto-Ethernet1", "", [][]string{{"1", "2"}}, 2)
+	}
 	a.WriteString("interface Ethernet0\n ip address 10.1.1.1 255.255.255.0\n ip access-group e0_in-DRC-0 in\n")
 	b.WriteString("interface Ethernet0\n ip address 10.1.1.1 255.255.255.0\n ip access-group e0_in in\n")
 	a.WriteString("interface Ethernet1\n ip address 10.1.2.1 255.255.255.0\n")
 	b.WriteString("interface Ethernet1\n ip address 10.1.2.1 255.255.255.0\n")
+	if e1Shares {
+		a.WriteString(" ip access-group e0_in-DRC-0 in\n")
+		vf.Cover("one device ACL bound at two interfaces")
+	}
+	if e1Has {
+		b.WriteString(" ip access-group e1_in in\n")
+	}
 	if aHas {
 		a.WriteString(" crypto map VPN\n")
 		vf.Cover("crypto map on device")
@@ -570,7 +611,11 @@ func VerifIOSGraph() {
 		vf.Cover("crypto map in target")
 	}
 	// interface unknown to Netspoc
-	switch vf.FixInt(vf.Int("a.unknownInterface", 0, 3)) {
+	unk := 0
+	if part == "crypto" || part == "shared" {
+		unk = vf.FixInt(vf.Int("a.unknownInterface", 0, 3))
+	}
+	switch unk {
 	case 1:
 		a.WriteString("ip access-list extended e2_in\n permit ip any host 10.1.3.3\n deny ip any any\n")
 		a.WriteString("interface Ethernet2\n ip address 10.1.3.1 255.255.255.0\n ip access-group e2_in in\n")
@@ -587,6 +632,23 @@ func VerifIOSGraph() {
 		a.WriteString("interface Ethernet2\n ip address 10.1.3.1 255.255.255.0\n crypto map crypto-e2-DRC-0\n")
 		vf.Cover("interface unknown to Netspoc on device")
 		vf.Cover("unknown interface with crypto map of two entries")
+	}
+	// VRFs: VRF 002 is used by the target, VRF 001 only exists on the device
+	if part == "vrf" {
+		vf.Assumption("part vrf: interface Ethernet5 in VRF 002 on both sides; 1..2 interfaces of VRF 001, which the target does not use, each with its own ACL (generated name)")
+		vrfs := vf.FixInt(vf.Int("a.unmanagedVRFInterfaces", 1, 2))
+		mv := "interface Ethernet5\n ip vrf forwarding 002\n ip address 10.1.5.1 255.255.255.0\n"
+		a.WriteString(mv)
+		b.WriteString(mv)
+		for k := 0; k < vrfs; k++ {
+			n := strconv.Itoa(6 + k)
+			a.WriteString("ip access-list extended e" + n + "_in-DRC-0\n permit ip any host 10.1." + n + ".3\n deny ip any any\n")
+			a.WriteString("interface Ethernet" + n + "\n ip vrf forwarding 001\n ip address 10.1." + n + ".1 255.255.255.0\n ip access-group e" + n + "_in-DRC-0 in\n")
+		}
+		vf.Cover("interfaces of a VRF unknown to Netspoc on device")
+		if vrfs == 2 {
+			vf.Cover("two interfaces in the unmanaged VRF")
+		}
 	}
 	devText, tgtText := a.String(), b.String()
 	vf.Note("DEVICE:\n"+devText, "TARGET:\n"+tgtText)
@@ -608,11 +670,22 @@ func VerifIOSGraph() {
 		return
 	}
 	before := map[string]string{}
+	dev.outsideACL, dev.outsideMap = map[string]bool{}, map[string]bool{}
 	for _, i := range dev.intfs {
 		if tgt.intf(i.name) == nil {
 			before[i.name] = dev.snapshot(i)
+			dev.outsideACL[i.in], dev.outsideACL[i.out] = true, true
+			if i.crypto != "" {
+				dev.outsideMap[i.crypto] = true
+				for _, e := range dev.entries {
+					if e.name == i.crypto {
+						dev.outsideACL[e.in], dev.outsideACL[e.out] = true, true
+					}
+				}
+			}
 		}
 	}
+	delete(dev.outsideACL, "")
 	if len(s.Changes) == 0 {
 		vf.Cover("no change reported")
 	} else {
